@@ -122,3 +122,35 @@ def _register_encode_glue():
 
 
 _register_encode_glue()
+
+
+def _register_jump_graph():
+    for kinds in itertools.product(["jabs", "jrel"], repeat=2):
+        def h(ctx, cfg, kinds=kinds):
+            ns = b2b_ns()
+            T = cfg.tables
+            ops = {"jabs": T["hasjabs"][0], "jrel": T["hasjrel"][0]}
+            nop = T["opmap"]["NOP"]
+            # offsets: i0 @0 jumps to @4 (i2); i1 @2 plain; i2 @4 plain; i3 @6 jumps to @0; i4 @8 plain
+            seq = [(ops[kinds[0]], 0, 1, 0, 2), (nop, 0, 1, 2, 4), (nop, 0, 1, 4, 6), (ops[kinds[1]], 0, 1, 6, 8), (nop, 0, 1, 8, 10)]
+            ns["_parse_bytes"] = lambda b: iter(seq)
+            tgt = {0: 4, 6: 0}
+
+            def to_arg(opcode, arg, next_offset, *tables):
+                off = next_offset - 2
+                if off in tgt:
+                    return Jump(tgt[off], opcode == ops["jrel"])
+                return NoArg(arg)
+            ns["to_arg"] = to_arg
+            lm = L.LineMapping({o: 1 for o in range(0, 10, 2)}, {})
+            blocks, additional = ns["bytes_to_blocks"]("CODE", lm, (), (), (), (), (), None, Args())
+            ctx.prove("post.blocks_are_the_jump_target_partition[{0,4} -> two blocks]", z3.BoolVal([len(b) for b in blocks] == [2, 3]), detail=repr([len(b) for b in blocks]))
+            ctx.prove("post.forward_jump_designates_the_block_that_starts_at_its_target", z3.BoolVal(len(blocks) == 2 and blocks[0][0].arg.target == 1))
+            ctx.prove("post.jump_to_offset_0_designates_block_0", z3.BoolVal(len(blocks) == 2 and blocks[1][1].arg.target == 0))
+            ctx.prove("post.every_jump_target_is_an_existing_block", z3.BoolVal(all(0 <= i.arg.target < len(blocks) for b in blocks for i in b if isinstance(i.arg, Jump))))
+        harness("blocks.bytes_to_blocks.jump_graph[%s,%s]" % kinds, props=["C13", "C02"], functions=["code_data._blocks.bytes_to_blocks"], configs="all", engine="E2",
+                notes="bounded: the real function on a five-instruction sequence (stubbed _parse_bytes/to_arg) with a forward jump and a jump to offset 0: blocks open exactly at {0} and the targets, "
+                      "jumps are rewritten to the index of the block that starts at their target")(h)
+
+
+_register_jump_graph()
